@@ -50,7 +50,8 @@ class EngineB:
             cmd = ['cargo', 'kani', '-Z', 'stubbing', '-Z', 'concrete-playback', '--concrete-playback=print', '--harness', h.name, '--target-dir', tgt] + FEAT[h.features] + h.extra_args
         env = dict(common.ENV)
         t0 = time.time()
-        sh = f'ulimit -v {KANI_MEM_KB}; exec timeout {int(h.cap)} ' + ' '.join(cmd)
+        mem = KANI_MEM_KB * (2 if playback else 1)   # trace generation for concrete playback needs more memory than the plain verdict
+        sh = f'ulimit -v {mem}; exec timeout {int(h.cap * (2 if playback else 1))} ' + ' '.join(cmd)
         p = subprocess.run(['bash', '-c', sh], cwd=ov, env=env, capture_output=True, text=True)
         dt = time.time() - t0
         out = p.stdout + '\n' + p.stderr
